@@ -64,6 +64,25 @@ def normalise(path, backend):
     return s
 
 
+def macro_text(path, name, backend):
+    """normalised text of `#define NAME(...) body` (continuation lines joined) from a common.h"""
+    try:
+        src = strip_comments(open(path, encoding="utf-8").read())
+    except Exception as e:  # noqa
+        return "<unreadable: %s>" % e
+    m = re.search(r"^[ \t]*#[ \t]*define[ \t]+" + re.escape(name) + r"\b((?:[^\n\\]|\\\n|\\.)*)$", src, re.M)
+    if not m:
+        return "<macro %s not defined>" % name
+    body = m.group(1).replace("\\\n", " ")
+    if len(re.findall(r"^[ \t]*#[ \t]*define[ \t]+" + re.escape(name) + r"\b", src, re.M)) != 1:
+        return "<macro %s defined more than once>" % name
+    if backend == "naive":
+        body = body.replace("Naive", "DEV").replace("naive", "dev").replace("NAIVE", "DEV")
+    else:
+        body = body.replace("::Eigen::", "::EIGENLIB::").replace("Eigen::", "DEV::").replace("eigen", "dev").replace("EIGEN", "DEV")
+    return name + re.sub(r"\s+", "", body)
+
+
 def coq_string(s):
     # Coq string literal: only the double quote needs doubling; non-ASCII bytes are not expected
     if any(ord(c) > 126 or ord(c) < 32 for c in s):
@@ -88,15 +107,27 @@ def generate():
         summary["kernels"] += 1
         (summary["same"] if tn == te else summary["different"]).append(k)
         rows.append((k, tn, te))
-    with open(OUT + ".tmp", "w") as f:
+    # the helper macros the shared kernels are written with (CDATA, MDATA, MAYBE_USED, REPEAT_OP) live in the
+    # two backends' own common.h: their definitions are compared like kernels, under the names "macro:<NAME>"
+    for mname in ("CDATA", "MDATA", "MAYBE_USED", "REPEAT_OP"):
+        tn = macro_text(os.path.join(nd, "common.h"), mname, "naive")
+        te = macro_text(os.path.join(ed, "common.h"), mname, "eigen")
+        summary["kernels"] += 1
+        (summary["same"] if tn == te else summary["different"]).append("macro:" + mname)
+        rows.append(("macro:" + mname, tn, te))
+    tmp = "%s.tmp.%d" % (OUT, os.getpid())
+    with open(tmp, "w") as f:
         f.write("(* GENERATED by translate/gen_backend_pairs.py from %s -- do not edit *)\n" % "primitiv/devices/{naive,eigen}/ops/*.cc")
         f.write("From Coq Require Import String List.\nImport ListNotations.\nLocal Open Scope string_scope.\n\n")
         f.write("(* kernel name, normalised Naive source, normalised Eigen source *)\n")
         f.write("Definition pairs : list (string * (string * string)) := [\n")
         f.write(";\n".join("  (%s, (%s,\n   %s))" % (coq_string(k), coq_string(tn), coq_string(te)) for (k, tn, te) in rows))
         f.write("\n].\n")
-    os.replace(OUT + ".tmp", OUT)
+    os.replace(tmp, OUT)
     return summary
+
+
+main = generate
 
 
 if __name__ == "__main__":
